@@ -183,7 +183,11 @@ class C14(Prop):
         rst_pending = pending_at(obs["restart"]) if obs["restart"] is not None else []
         row = obs["row"] or {}
         in_flight_at_restart = obs["restart"] is not None and any(e["life"] == 0 and e["exit"] == "cancelled" for e in log["work"])
-        reload_failed = obs["sent_reply"] is not None and not any(t >= obs["sent_reply"] for t in obs["reloaded"]) and bool(obs["released"]) and row.get("status") == "running"
+        # a harness send (the confirmation or the late reply) to a released run after which the run was never seen in memory again
+        sends_ = [t for t in (obs.get("pre_sent"), obs["sent_reply"]) if t is not None]
+        reload_failed = bool(sends_) and bool(obs["released"]) and row.get("status") == "running" and any(
+            not any(t >= ts for t in obs["reloaded"]) and any(rel <= ts + 0.25 + 1e-9 for rel in obs["released"]) for ts in sends_
+        )
         attrs = dict(timer_pending_at_release=bool(rel_pending), timer_pending_at_restart=bool(rst_pending), released=bool(obs["released"]), restarted=obs["restart"] is not None,
                      kinds=sorted(set(rel_pending) | set(rst_pending)), restart_with_step_in_flight=in_flight_at_restart, reload_on_reply_failed=reload_failed)
         timeout_due_first = bool(case.get("wait") and T and asked and asked[0] + T < LATE - 1)
